@@ -70,6 +70,9 @@ func (n *Node) chainCtx(proposer *Key) *common.ChainCtx {
 	if n.Consensus != nil {
 		c.Consensus = n.Consensus
 	}
+	if n.Net != nil {
+		c.EngCtx.Net = n.Net
+	}
 	c.XLog = n.Log
 	c.Timer = timer.NewXTimer()
 	return c
